@@ -408,10 +408,21 @@ def run(tier, seed):
                 ck.traces_validated += 1
             else:
                 ck.disagree("log model vs real " + desc["site"], desc, f"impl={real} model={ml}")
-            # oracle, independent of the model: with the mark set the input must not be in the records
-            marked = desc.get("redacted", desc.get("hidden")) not in ("False", "0", "''", "None", "'MISSING'")
-            if marked and desc["input"] != "REDACTED" and hx(desc["input"]) in real.replace(hx("REDACTED"), ""):
+        # oracle, independent of the model (non-interference): with the mark set, what is handed to logging is the
+        # same whatever the input is, and no argument contains the input
+        groups = {}
+        for req, real, desc in lm_cases:
+            flag = desc.get("redacted", desc.get("hidden"))
+            if flag in ("False", "0", "''", "None", "'MISSING'"):
+                continue
+            groups.setdefault((desc["site"], desc["stack"], desc.get("response"), flag), []).append((desc, real))
+            args = [a for rec in real.split(";") for a in rec.split(":", 1)[1].split(",")]
+            if desc["input"] != "REDACTED" and any(hx(desc["input"]) in a for a in args):
                 ck.violation({"log_model_case": desc, "records": real}, "input logged although marked redacted/hidden", matcher)
+        for k, lst in groups.items():
+            if len({real for _, real in lst}) != 1:
+                ck.violation({"log_model_group": list(map(str, k)), "records": sorted({real for _, real in lst})[:4]},
+                             "records of a redacted/hidden write depend on the input", matcher)
     ck.exhaustive = True
     ck.extra["exhaustive_scope"] = (f"log sites: {len(LM_INPUTS)} inputs x {len(LM_HIDDEN)} flag values x {len(LM_RESP)} prompts x 2 stacks; "
                                     "faults: " + ("every" if tier == "thorough" else "5 sampled") + " read/write index of 6 base scenarios x 2 stacks")
